@@ -75,6 +75,28 @@ NOT_APPLICABLE = {
 PENDING_REASON = "no solver-based check registered yet (planned in DESIGN.md §6/§11; not claimed until built)"
 
 
+# additions made while generalising the harnesses after the seeded-change rounds (DESIGN.md §11)
+ADD = dict(
+    C01=" Flow-integration solver: besides its start gate, the bound / release event functions of ProblemSwitches.create_event_triggers are proved equal to their definitions for an arbitrary filter and two arbitrary states (the ODE integration itself is outside).",
+    C02=" Shapes with a start point outside the box; Unbounded => constraint AND bound violation <= opt_tol; twin shapes in which the step oracle returns StepController's failure result.",
+    C05=" One Globalized Newton step (Armijo line search, unwound 2-3 trials) from an ARBITRARY in-box Newton iterate in exact arithmetic: every evaluation point and the returned iterate in the box, i.e. the line search at any Newton iteration.",
+    C06=" The real ConditionEstimator driving each real linear-solver wrapper (scipy by contract stub, converged iterations exact, power iteration unwound 1-2): only a number or a LinearSolverError leaves it; every wrapper under every call shape of the LinearSolver interface.",
+    C07=" Failures at the starting point as a property of the point (uninterpreted predicates per callback): the dedicated initial-point error is raised iff one of the five callbacks fails there.",
+    C08=" A deadline expiring at a clock read inside a step computation yields no accepted step (L2, Exact controller).",
+    C09=" L2 composition of one compute_step with the inner display off/on (DEBUG): same result and same controller memory afterwards.",
+    C11=" Snapshots follow the owner's attribute (a replaced array must keep dtype and values); single working precision over double-precision cached callbacks.",
+    C12=" Step-failure results of the controller (same iterate object); observers registered before the first solve, between solves and unregistered, over three solves of one Solver.",
+    C13=" Second Jacobian evaluation with a second symbolic active set on the same iterate, cached derivatives re-checked afterwards; default (None) active set; rho = 0 Hessian.",
+    C14=" Newton variants with a caller-chosen symbolic tau and a reference active set; two consecutive steps of one ActiveSet / Full / Simplified method object (active set free to change) against the variant's reference system.",
+    C15=" The oracle step solver may expose the lambda-scaled residual function (as the Symmetric / Asymmetric / Extended solvers do).",
+    C16=" Shapes with two constraint rows (max-norm != 2-norm); the same rules on a second solve of the same Solver object (self-composition).",
+    C17=" LU requested with symmetric=True; the SuperLU stub's accuracy clause holds under its default partial pivoting only (relaxed pivoting / SymmetricMode: nothing promised).",
+    C20=" A KKT matrix that admits no equilibration run through all 100 sweeps (exponents decided by forking): non-convergence must end in the error; KKT and m=0 dispatch; single working precision with float32 stores modelled as an uninterpreted round-to-nearest (R32).",
+)
+for _k, _v in ADD.items():
+    CHECKS[_k]["text"] = CHECKS[_k]["text"] + _v
+
+
 def main():
     props = [json.loads(l)["id"] for l in open(os.path.join(VERIF, "properties.jsonl"))]
     checks = []
